@@ -222,6 +222,13 @@ theorem inv_doConnect (c : Config) (st : State) (h : Inv st) (hs : st.started = 
     · simp [ha] at hn; simp [hn, Wd.isSleeping] at hw
   · exact inv_closeServer_connecting _ _ hs
 
+/-! ### telling the server the branch position changes nothing but the ghost `told` -/
+
+theorem inv_tellPosition (c : Config) (st : State) (h : Inv st) : Inv (tellPosition c st).1 := by
+  unfold tellPosition; split
+  · simpa [Inv] using h
+  · exact h
+
 theorem inv_step (c : Config) (st : State) (op : Op) (h : Inv st) : Inv (step c st op).1 := by
   cases op with
   | start =>
@@ -268,6 +275,33 @@ theorem inv_step (c : Config) (st : State) (op : Op) (h : Inv st) : Inv (step c 
     simp only [step]; split
     · rename_i hc; exact inv_doConnect _ _ h hc.1 hc.2.2.2
     · exact h
+  | parentAdopt name root level =>
+    simp only [step]; split
+    · exact inv_tellPosition c _ (by simpa [Inv] using h)
+    · exact h
+  | parentLevel level =>
+    simp only [step]; split
+    · exact inv_tellPosition c _ (by simpa [Inv] using h)
+    · exact h
+  | parentRoot root =>
+    simp only [step]; split
+    · split
+      · exact h
+      · exact inv_tellPosition c _ (by simpa [Inv] using h)
+    · exact h
+  | parentLoss =>
+    simp only [step]; split
+    · exact inv_tellPosition c _ (by simpa [Inv] using h)
+    · exact h
+  | childJoin => simp only [step]; split
+                 · simpa [Inv] using h
+                 · exact h
+  | childLoss => simp only [step]; split
+                 · simpa [Inv] using h
+                 · exact h
+  | rescan d f => simp only [step]; split
+                  · simpa [Inv] using h
+                  · exact h
   | tick => simp only [step]; exact inv_tickWd _ _ (by simpa [Inv, ageAll] using h)
   | setSrvUp b => simpa [step, Inv] using h
   | setSrvReply r => simpa [step, Inv] using h
@@ -433,6 +467,15 @@ theorem count_doStart (c : Config) (st : State) (hs : st.session = false) :
     · simp [nDestr, nInit, b2n, hs]
     · simp [closeServer, nDestr, nInit, b2n, hs]
 
+theorem nDestr_tellPosition (c : Config) (st : State) : nDestr (tellPosition c st).2 = 0 := by
+  unfold tellPosition; split <;> simp [nDestr]
+
+theorem nInit_tellPosition (c : Config) (st : State) : nInit (tellPosition c st).2 = 0 := by
+  unfold tellPosition; split <;> simp [nInit]
+
+theorem session_tellPosition (c : Config) (st : State) : (tellPosition c st).1.session = st.session := by
+  unfold tellPosition; split <;> rfl
+
 theorem count_step (c : Config) (st : State) (op : Op) (h : Inv st) :
     nDestr (step c st op).2 + b2n (step c st op).1.session = nInit (step c st op).2 + b2n st.session := by
   cases op with
@@ -480,6 +523,30 @@ theorem count_step (c : Config) (st : State) (op : Op) (h : Inv st) :
         have e4 : nInit [Obs.startFailed] = 0 := by simp [nInit]
         have e5 : b2n ({ st with conn := Conn.connecting } : State).session = b2n st.session := rfl
         omega
+    · simp [nDestr, nInit]
+  | parentAdopt name root level =>
+    simp only [step]; split
+    · simp only [nDestr_tellPosition, nInit_tellPosition, session_tellPosition]
+    · simp [nDestr, nInit]
+  | parentLevel level =>
+    simp only [step]; split
+    · simp only [nDestr_tellPosition, nInit_tellPosition, session_tellPosition]
+    · simp [nDestr, nInit]
+  | parentRoot root =>
+    simp only [step]; split
+    · split
+      · simp [nDestr, nInit]
+      · simp only [nDestr_tellPosition, nInit_tellPosition, session_tellPosition]
+    · simp [nDestr, nInit]
+  | parentLoss =>
+    simp only [step]; split
+    · simp only [nDestr_tellPosition, nInit_tellPosition, session_tellPosition]
+    · simp [nDestr, nInit]
+  | childJoin => simp only [step]; split <;> simp [nDestr, nInit]
+  | childLoss => simp only [step]; split <;> simp [nDestr, nInit]
+  | rescan d f =>
+    simp only [step]; split
+    · split <;> simp [nDestr, nInit]
     · simp [nDestr, nInit]
   | tick =>
     simp only [step]
@@ -641,6 +708,9 @@ theorem reset_doLoginBreak (c : Config) (pos : Option Nat) (d : Nat) (b : Break)
         simp only [obsClosed_append, hf, Bool.false_or] at h
         exact reset_closeServer _ _ h
 
+theorem obsClosed_tellPosition (c : Config) (st : State) : obsClosed (tellPosition c st).2 = false := by
+  unfold tellPosition; split <;> simp [obsClosed]
+
 theorem reset_step (c : Config) (st : State) (op : Op)
     (h : obsClosed (step c st op).2 = true) : cleared (step c st op).1 := by
   cases op with
@@ -684,6 +754,30 @@ theorem reset_step (c : Config) (st : State) (op : Op)
         apply reset_closeServer
         simpa [obsClosed] using h
     · simp [obsClosed] at h
+  | parentAdopt name root level =>
+    simp only [step] at h; split at h
+    · simp [obsClosed_tellPosition] at h
+    · simp [obsClosed] at h
+  | parentLevel level =>
+    simp only [step] at h; split at h
+    · simp [obsClosed_tellPosition] at h
+    · simp [obsClosed] at h
+  | parentRoot root =>
+    simp only [step] at h; split at h
+    · split at h
+      · simp [obsClosed] at h
+      · simp [obsClosed_tellPosition] at h
+    · simp [obsClosed] at h
+  | parentLoss =>
+    simp only [step] at h; split at h
+    · simp [obsClosed_tellPosition] at h
+    · simp [obsClosed] at h
+  | childJoin => simp only [step] at h; split at h <;> simp [obsClosed] at h
+  | childLoss => simp only [step] at h; split at h <;> simp [obsClosed] at h
+  | rescan d f =>
+    simp only [step] at h; split at h
+    · split at h <;> simp [obsClosed] at h
+    · simp [obsClosed] at h
   | tick => simp only [step] at h ⊢; exact reset_tickWd c _ h
   | setSrvUp b => simp [step, obsClosed] at h
   | setSrvReply r => simp [step, obsClosed] at h
@@ -702,12 +796,14 @@ def Quiet (st : State) : Prop :=
   st.wd = .off ∧ st.ping = false ∧ st.reader = false ∧ st.userMgmt = false ∧ st.transferMgmt = false ∧
   st.transferProgress = false ∧ st.logConn = false ∧ st.scan = false ∧ st.wishlist = false ∧ st.tracked = [] ∧
   st.searchTimers = 0 ∧ st.wishlistTimers = 0 ∧ st.pp = [] ∧ st.conn ≠ .connected ∧ st.listening = 0 ∧
-  st.session = false ∧ st.started = true ∧ st.stopped = true ∧ st.sr = [] ∧ st.orphans = []
+  st.session = false ∧ st.started = true ∧ st.stopped = true ∧ st.sr = [] ∧ st.orphans = [] ∧
+  st.parent = none ∧ st.children = 0
 
 theorem quiet_alive (c : Config) (st : State) (h : Quiet st) :
     alive c st = List.replicate st.heldReaders .reader ∧ openSockets st = 0 := by
-  obtain ⟨h1, h2, h3, h4, h5, h6, h7, h8, h9, h10, h11, h12, h13, h14, h15, _, _, _, h19, h20⟩ := h
-  simp [alive, raceChildren, openSockets, h1, h2, h3, h4, h5, h6, h7, h8, h9, h10, h11, h12, h13, h14, h15, h19, h20]
+  obtain ⟨h1, h2, h3, h4, h5, h6, h7, h8, h9, h10, h11, h12, h13, h14, h15, _, _, _, h19, h20, h21, h22⟩ := h
+  simp [alive, raceChildren, openSockets, peerConns, h1, h2, h3, h4, h5, h6, h7, h8, h9, h10, h11, h12, h13, h14, h15,
+    h19, h20, h21, h22]
 
 theorem quiet_doStop (c : Config) (st : State) (h : Inv st) (hs : st.started = true) : Quiet (doStop c st).1 := by
   have c1 := covered_all .watchdog
@@ -724,9 +820,10 @@ theorem quiet_doStop (c : Config) (st : State) (h : Inv st) (hs : st.started = t
   have c12 := covered_all .searchReply
   have c13 := covered_all .directConnect
   have c14 := covered_all .indirectConnect
+  have c15 := covered_all .reader
   obtain ⟨h1, h2, h3, h4, _, _⟩ := h
   unfold doStop closeServer
-  simp only [c1, c2, c3, c4, c5, c6, c7, c8, c9, c10, c11, c12, c13, c14]
+  simp only [c1, c2, c3, c4, c5, c6, c7, c8, c9, c10, c11, c12, c13, c14, c15]
   by_cases hc : st.conn = .closed ∨ st.conn = .closing
   · have hn : st.conn ≠ .connected := by rcases hc with hc | hc <;> simp [hc]
     obtain ⟨p1, p2, p3⟩ := h1 hn
@@ -736,9 +833,9 @@ theorem quiet_doStop (c : Config) (st : State) (h : Inv st) (hs : st.started = t
 theorem quiet_step (c : Config) (st : State) (op : Op) (h : Quiet st) :
     Quiet (step c st op).1 ∧ (∀ o ∈ (step c st op).2, o = .invalid ∨ o = .refused) ∧
     (step c st op).1.heldReaders ≤ st.heldReaders := by
-  obtain ⟨h1, h2, h3, h4, h5, h6, h7, h8, h9, h10, h11, h12, h13, h14, h15, h16, h17, h18, h19, h20⟩ := h
+  obtain ⟨h1, h2, h3, h4, h5, h6, h7, h8, h9, h10, h11, h12, h13, h14, h15, h16, h17, h18, h19, h20, h21, h22⟩ := h
   have hq : Quiet st :=
-    ⟨h1, h2, h3, h4, h5, h6, h7, h8, h9, h10, h11, h12, h13, h14, h15, h16, h17, h18, h19, h20⟩
+    ⟨h1, h2, h3, h4, h5, h6, h7, h8, h9, h10, h11, h12, h13, h14, h15, h16, h17, h18, h19, h20, h21, h22⟩
   cases op with
   | start => simp [step, h17, hq]
   | login => simp [step, h14, hq]
@@ -757,10 +854,17 @@ theorem quiet_step (c : Config) (st : State) (op : Op) (h : Quiet st) :
     · exact ⟨by simpa [Quiet] using hq, by simp, by simp [State.heldReaders]⟩
     · exact ⟨hq, by simp, Nat.le_refl _⟩
   | connect => simp [step, h18, hq]
+  | parentAdopt name root level => simp [step, h3, hq]
+  | parentLevel level => simp [step, h21, hq]
+  | parentRoot root => simp [step, h21, hq]
+  | parentLoss => simp [step, h21, hq]
+  | childJoin => simp [step, clearOpen, h15, hq]
+  | childLoss => simp [step, h22, hq]
+  | rescan d f => simp [step, h18, hq]
   | tick =>
     simp only [step, ageAll, h13, h19, h20, agePP, tickWd, h1, List.filter_nil, List.map_nil]
     refine ⟨?_, by simp, Nat.le_refl _⟩
-    exact ⟨rfl, h2, h3, h4, h5, h6, h7, h8, h9, h10, h11, h12, rfl, h14, h15, h16, h17, h18, rfl, rfl⟩
+    exact ⟨rfl, h2, h3, h4, h5, h6, h7, h8, h9, h10, h11, h12, rfl, h14, h15, h16, h17, h18, rfl, rfl, h21, h22⟩
   | setSrvUp b => simp only [step]; exact ⟨by simpa [Quiet] using hq, by simp, Nat.le_refl _⟩
   | setSrvReply r => simp only [step]; exact ⟨by simpa [Quiet] using hq, by simp, Nat.le_refl _⟩
   | stop => simp [step, h18, hq]
@@ -814,6 +918,9 @@ theorem stopped_doStart (c : Config) (st : State) : (doStart c st).1.stopped = s
   · split
     · rfl
     · exact stopped_closeServer _ _
+
+theorem stopped_tellPosition (c : Config) (st : State) : (tellPosition c st).1.stopped = st.stopped := by
+  unfold tellPosition; split <;> rfl
 
 theorem stopped_doConnect (c : Config) (st : State) : (doConnect c st).1.stopped = st.stopped := by
   unfold doConnect; split
@@ -911,6 +1018,27 @@ theorem stopinv_step (c : Config) (st : State) (op : Op) (hi : Inv st) (h : Stop
       simp only [step] at hx; split at hx
       · rw [stopped_doConnect, hp'] at hx; cases hx
       · rw [hp'] at hx; cases hx
+    | parentAdopt name root level =>
+      simp only [step] at hx; split at hx
+      · rw [stopped_tellPosition] at hx; simp [hp'] at hx
+      · rw [hp'] at hx; cases hx
+    | parentLevel level =>
+      simp only [step] at hx; split at hx
+      · rw [stopped_tellPosition] at hx; simp [hp'] at hx
+      · rw [hp'] at hx; cases hx
+    | parentRoot root =>
+      simp only [step] at hx; split at hx
+      · split at hx
+        · rw [hp'] at hx; cases hx
+        · rw [stopped_tellPosition] at hx; simp [hp'] at hx
+      · rw [hp'] at hx; cases hx
+    | parentLoss =>
+      simp only [step] at hx; split at hx
+      · rw [stopped_tellPosition] at hx; simp [hp'] at hx
+      · rw [hp'] at hx; cases hx
+    | childJoin => simp only [step] at hx; split at hx <;> (simp [hp'] at hx)
+    | childLoss => simp only [step] at hx; split at hx <;> (simp [hp'] at hx)
+    | rescan d f => simp only [step] at hx; split at hx <;> (simp [hp'] at hx)
     | tick =>
       simp only [step] at hx
       rw [stopped_tickWd] at hx
@@ -1119,6 +1247,11 @@ theorem winv_doConnect (c : Config) (st : State) (h : WInv c st) : WInv c (doCon
     · intro _ ha; simp [ha]
   · exact winv_closeServer' c _ _ h.1
 
+theorem winv_tellPosition (c : Config) (st : State) (h : WInv c st) : WInv c (tellPosition c st).1 := by
+  unfold tellPosition; split
+  · simpa [WInv] using h
+  · exact h
+
 theorem winv_step (c : Config) (st : State) (op : Op) (h : WInv c st) (hi : Inv st) :
     WInv c (step c st op).1 := by
   cases op with
@@ -1163,6 +1296,33 @@ theorem winv_step (c : Config) (st : State) (op : Op) (h : WInv c st) (hi : Inv 
     simp only [step]; split
     · exact winv_doConnect c st h
     · exact h
+  | parentAdopt name root level =>
+    simp only [step]; split
+    · exact winv_tellPosition c _ (by simpa [WInv] using h)
+    · exact h
+  | parentLevel level =>
+    simp only [step]; split
+    · exact winv_tellPosition c _ (by simpa [WInv] using h)
+    · exact h
+  | parentRoot root =>
+    simp only [step]; split
+    · split
+      · exact h
+      · exact winv_tellPosition c _ (by simpa [WInv] using h)
+    · exact h
+  | parentLoss =>
+    simp only [step]; split
+    · exact winv_tellPosition c _ (by simpa [WInv] using h)
+    · exact h
+  | childJoin => simp only [step]; split
+                 · simpa [WInv] using h
+                 · exact h
+  | childLoss => simp only [step]; split
+                 · simpa [WInv] using h
+                 · exact h
+  | rescan d f => simp only [step]; split
+                  · simpa [WInv] using h
+                  · exact h
   | tick => simp only [step]
             exact winv_tickWd c _ (by simpa [WInv, ageAll] using h) (by simpa [Inv, ageAll] using hi)
   | setSrvUp b => simpa [step, WInv] using h
@@ -1303,5 +1463,282 @@ theorem reconnect_law (c : Config) (s0 s1 : State) (o1 : List Obs) (r : Reason)
     simp only [List.append_nil]
     refine ⟨⟨fun h => absurd h k4, fun h => absurd h cond⟩,
             ⟨fun h => absurd h k5, fun h => absurd ⟨h.1, h.2.1, h.2.2.1, h.2.2.2.1⟩ cond⟩⟩
+
+/-! ## the server knows the branch position (round 5) -/
+
+/-- whenever a session exists, the last branch position the CURRENT server connection was told is the position the
+    client has -/
+def PInv (c : Config) (st : State) : Prop := st.session = true → st.told = some (position c st)
+
+theorem envOf_congr (c : Config) (a b : State) (h : a.parent = b.parent) (hs : a.stats = b.stats) :
+    envOf c a = envOf c b := by
+  simp [envOf, h, hs]
+
+theorem position_congr (c : Config) (a b : State) (h : a.parent = b.parent) : position c a = position c b := by
+  simp [position, positionOf, branchValues, envOf, h]
+
+theorem pinv_init (c : Config) : PInv c init := by
+  intro h; simp [init] at h
+
+/-- a state that differs only in fields the position does not read -/
+theorem pinv_of_same (c : Config) (a b : State) (h : PInv c a) (hs : b.session = a.session) (ht : b.told = a.told)
+    (hp : b.parent = a.parent) : PInv c b := by
+  intro hb
+  rw [ht, position_congr c b a hp]
+  exact h (by rw [← hs]; exact hb)
+
+theorem pinv_of_no_session (c : Config) (st : State) (h : st.session = false) : PInv c st := by
+  intro hs; rw [h] at hs; cases hs
+
+theorem pinv_tellPosition (c : Config) (st : State) : PInv c (tellPosition c st).1 := by
+  unfold tellPosition
+  split
+  · intro _
+    exact congrArg some (position_congr c st _ rfl)
+  · rename_i hs
+    exact pinv_of_no_session c st (by simpa using hs)
+
+theorem pinv_closeServer (c : Config) (r : Reason) (st : State) (h : PInv c st) : PInv c (closeServer r st).1 := by
+  unfold closeServer
+  split
+  · exact h
+  · exact pinv_of_no_session c _ rfl
+
+theorem session_closeServer_connected (r : Reason) (st : State) (hc : st.conn = .connected) :
+    (closeServer r st).1.session = false := by
+  simp [closeServer, hc]
+
+theorem pinv_doLogin (c : Config) (st : State) (h : PInv c st) : PInv c (doLogin c st).1 := by
+  unfold doLogin
+  split
+  · intro _
+    exact congrArg some (position_congr c st _ rfl)
+  · exact h
+  · exact h
+  · exact pinv_closeServer c _ st h
+
+theorem pinv_reconnect (c : Config) (st : State) (h : PInv c st) : PInv c (reconnect c st).1 := by
+  unfold reconnect
+  split
+  · split
+    · exact pinv_doLogin c _ (pinv_of_same c st _ h rfl rfl rfl)
+    · exact pinv_of_same c st _ h rfl rfl rfl
+  · exact pinv_closeServer c _ _ (pinv_of_same c st _ h rfl rfl rfl)
+
+theorem pinv_tickWd (c : Config) (st : State) (h : PInv c st) : PInv c (tickWd c st).1 := by
+  unfold tickWd
+  split
+  · exact h
+  · split
+    · exact pinv_of_same c st _ h rfl rfl rfl
+    · exact h
+  · split
+    · exact pinv_reconnect c st h
+    · exact pinv_of_same c st _ h rfl rfl rfl
+
+theorem pinv_doStart (c : Config) (st : State) (h : PInv c st) : PInv c (doStart c st).1 := by
+  unfold doStart
+  simp only []
+  split
+  · exact pinv_of_same c st _ h rfl rfl rfl
+  · split
+    · exact pinv_of_same c st _ h rfl rfl rfl
+    · exact pinv_closeServer c _ _ (pinv_of_same c st _ h rfl rfl rfl)
+
+theorem session_doStop (c : Config) (st : State) (hi : Inv st) : (doStop c st).1.session = false := by
+  unfold doStop closeServer
+  by_cases hc : st.conn = .closed ∨ st.conn = .closing
+  · have hn : st.conn ≠ .connected := by rcases hc with hc | hc <;> simp [hc]
+    simp [hc, (hi.1 hn).2.2]
+  · simp [hc]
+
+theorem session_applyBreak (c : Config) (b : Break) (st : State) (hi : Inv st) (hc : st.conn = .connected) :
+    (applyBreak c b st).1.session = false := by
+  cases b with
+  | writeFail => exact session_closeServer_connected _ st hc
+  | close r => exact session_closeServer_connected _ st hc
+  | stop => exact session_doStop c st hi
+  | srvEof => exact session_closeServer_connected _ st hc
+
+theorem conn_loginDone (c : Config) (st : State) (hc : st.conn = .connected) :
+    ({ (doLogin c { st with srvReply := .accepted }).1 with srvReply := st.srvReply } : State).conn = .connected := by
+  simp [doLogin, hc]
+
+theorem pinv_loginDone (c : Config) (st : State) (h : PInv c st) :
+    PInv c { (doLogin c { st with srvReply := .accepted }).1 with srvReply := st.srvReply } := by
+  have := pinv_doLogin c { st with srvReply := .accepted } (pinv_of_same c st _ h rfl rfl rfl)
+  exact pinv_of_same c _ _ this rfl rfl rfl
+
+theorem pinv_doLoginBreak (c : Config) (pos : Option Nat) (d : Nat) (b : Break) (st : State) (hi : Inv st)
+    (h : PInv c st) (hc : st.conn = .connected) : PInv c (doLoginBreak c pos d b st).1 := by
+  have hdi := inv_loginDone c st hi hc
+  have hdc := conn_loginDone c st hc
+  unfold doLoginBreak
+  cases pos with
+  | none => exact pinv_of_no_session c _ (session_applyBreak c b st hi hc)
+  | some j =>
+    simp only []
+    split
+    · cases b with
+      | writeFail => exact pinv_loginDone c st h
+      | close r => exact pinv_of_no_session c _ (session_applyBreak c _ _ hdi hdc)
+      | stop => exact pinv_of_no_session c _ (session_applyBreak c _ _ hdi hdc)
+      | srvEof => exact pinv_of_no_session c _ (session_applyBreak c _ _ hdi hdc)
+    · cases b with
+      | writeFail => exact pinv_of_no_session c _ (session_applyBreak c _ _ (inv_inBurst st hi hc) hc)
+      | close r => exact pinv_of_no_session c _ (session_applyBreak c _ _ (inv_inBurst st hi hc) hc)
+      | stop => exact pinv_of_no_session c _ (session_applyBreak c _ _ (inv_inBurst st hi hc) hc)
+      | srvEof => exact pinv_closeServer c _ _ (pinv_loginDone c st h)
+
+theorem pinv_step (c : Config) (st : State) (op : Op) (hi : Inv st) (h : PInv c st) : PInv c (step c st op).1 := by
+  cases op with
+  | start => simp only [step]; split
+             · exact h
+             · exact pinv_doStart c st h
+  | login => simp only [step]; split
+             · exact pinv_doLogin c st h
+             · exact h
+  | loginBreak pos d b =>
+    simp only [step]; split
+    · rename_i hc; exact pinv_doLoginBreak c pos d b st hi h hc.1
+    · exact h
+  | exec => simp only [step]; split <;> exact h
+  | populate => simp only [step]; split
+                · exact pinv_of_same c st _ h rfl rfl rfl
+                · exact h
+  | search => simp only [step]; split
+              · exact pinv_of_same c st _ h rfl rfl rfl
+              · exact h
+  | wishlistInterval => simp only [step]; split
+                        · exact pinv_of_same c st _ h rfl rfl rfl
+                        · exact h
+  | potentialParents => simp only [step]; split
+                        · exact pinv_of_same c st _ h rfl rfl rfl
+                        · exact h
+  | searchRequest => simp only [step]; split
+                     · exact pinv_of_same c st _ h rfl rfl rfl
+                     · exact h
+  | loss r => simp only [step]; split
+              · exact pinv_closeServer c r st h
+              · exact h
+  | lossHeld r =>
+    simp only [step]; split
+    · exact pinv_of_same c _ _ (pinv_closeServer c r st h) rfl rfl rfl
+    · exact h
+  | release => simp only [step]; split
+               · exact pinv_of_same c st _ h rfl rfl rfl
+               · exact h
+  | connect =>
+    simp only [step]; split
+    · unfold doConnect
+      split
+      · exact pinv_of_same c st _ h rfl rfl rfl
+      · exact pinv_closeServer c _ _ (pinv_of_same c st _ h rfl rfl rfl)
+    · exact h
+  | parentAdopt name root level =>
+    simp only [step]; split
+    · exact pinv_tellPosition c _
+    · exact h
+  | parentLevel level =>
+    simp only [step]; split
+    · exact pinv_tellPosition c _
+    · exact h
+  | parentRoot root =>
+    simp only [step]; split
+    · split
+      · exact h
+      · exact pinv_tellPosition c _
+    · exact h
+  | parentLoss =>
+    simp only [step]; split
+    · exact pinv_tellPosition c _
+    · exact h
+  | childJoin => simp only [step]; split
+                 · exact pinv_of_same c st _ h rfl rfl rfl
+                 · exact h
+  | childLoss => simp only [step]; split
+                 · exact pinv_of_same c st _ h rfl rfl rfl
+                 · exact h
+  | rescan d f => simp only [step]; split
+                  · exact pinv_of_same c st _ h rfl rfl rfl
+                  · exact h
+  | tick => simp only [step]; exact pinv_tickWd c _ (pinv_of_same c st _ h rfl rfl rfl)
+  | setSrvUp b => simp only [step]; exact pinv_of_same c st _ h rfl rfl rfl
+  | setSrvReply r => simp only [step]; exact pinv_of_same c st _ h rfl rfl rfl
+  | stop => simp only [step]; split
+            · exact pinv_of_no_session c _ (session_doStop c st hi)
+            · exact h
+
+theorem pinv_run (c : Config) (ops : List Op) : ∀ st, Inv st → PInv c st → PInv c (run c st ops).1 := by
+  induction ops with
+  | nil => intro st _ h; exact h
+  | cons op ops ih =>
+    intro st hi h
+    simp only [run]
+    exact ih _ (inv_step c st op hi) (pinv_step c st op hi h)
+
+/-! ### the distributed peers survive a loss of the server connection -/
+
+theorem closeServer_keeps_peers (r : Reason) (st : State) :
+    (closeServer r st).1.parent = st.parent ∧ (closeServer r st).1.children = st.children ∧
+    (closeServer r st).1.stats = st.stats := by
+  unfold closeServer; split <;> exact ⟨rfl, rfl, rfl⟩
+
+/-- what the ticks of the reconnect delay leave alone -/
+theorem sleeping_ticks_keep (c : Config) : ∀ (n : Nat) (st : State), st.wd = .sleeping (n + 1) →
+    (run c st (List.replicate n .tick)).2 = [] ∧ (run c st (List.replicate n .tick)).1.wd = .sleeping 1 ∧
+    (run c st (List.replicate n .tick)).1.srvUp = st.srvUp ∧
+    (run c st (List.replicate n .tick)).1.srvReply = st.srvReply ∧
+    (run c st (List.replicate n .tick)).1.parent = st.parent ∧
+    (run c st (List.replicate n .tick)).1.stats = st.stats := by
+  intro n
+  induction n with
+  | zero => intro st h; simp [run, h]
+  | succ n ih =>
+    intro st h
+    have hs : step c st .tick = ({ ageAll st with wd := .sleeping (n + 1) }, []) := by
+      simp [step, tickWd, ageAll, h]
+    have := ih { ageAll st with wd := .sleeping (n + 1) } rfl
+    simp only [List.replicate_succ, run, hs]
+    simpa [show (ageAll st).srvUp = st.srvUp from rfl, show (ageAll st).srvReply = st.srvReply from rfl,
+      show (ageAll st).parent = st.parent from rfl, show (ageAll st).stats = st.stats from rfl] using this
+
+/-- the reconnect delay followed by the attempt, as ONE `reconnect` on a state with the same server behaviour and
+    the same distributed parent: observations and final state -/
+theorem idle_reconnect_run (c : Config) (st : State) (hw : st.wd = .idle) (hc : st.conn = .closed)
+    (hk : c.credsOk = true) :
+    ∃ s2 : State, run c st (List.replicate (reconnectTicks + 1) .tick) = reconnect c s2 ∧
+      s2.srvUp = st.srvUp ∧ s2.srvReply = st.srvReply ∧ s2.parent = st.parent ∧ s2.stats = st.stats := by
+  have h1 : step c st .tick = ({ ageAll st with wd := .sleeping reconnectTicks }, []) := by
+    simp [step, tickWd, ageAll, hw, hc, hk]
+  have hrep : List.replicate (reconnectTicks + 1) Op.tick =
+      Op.tick :: (List.replicate (reconnectTicks - 1) Op.tick ++ [Op.tick]) := by
+    simp [reconnectTicks, List.replicate]
+  have hs := sleeping_ticks_keep c (reconnectTicks - 1) { ageAll st with wd := .sleeping reconnectTicks }
+    (by simp [reconnectTicks])
+  obtain ⟨hs1, hs2, hs3, hs4, hs5, hs6⟩ := hs
+  refine ⟨ageAll (run c { ageAll st with wd := .sleeping reconnectTicks }
+              (List.replicate (reconnectTicks - 1) .tick)).1, ?_, ?_, ?_, ?_, ?_⟩
+  · rw [hrep]
+    simp only [run, h1, run_append, hs1, List.nil_append, List.append_nil]
+    simp only [step, tickWd, ageAll_wd, hs2]
+    simp
+  · simpa [ageAll_srvUp] using hs3
+  · simpa [show ∀ s : State, (ageAll s).srvReply = s.srvReply from fun _ => rfl] using hs4
+  · simpa [show ∀ s : State, (ageAll s).parent = s.parent from fun _ => rfl] using hs5
+  · simpa [show ∀ s : State, (ageAll s).stats = s.stats from fun _ => rfl] using hs6
+
+/-- a successful automatic reconnect: the whole burst for the position the client has, the session, and the new
+    connection knows the position -/
+theorem reconnect_relogin (c : Config) (st : State) (hup : st.srvUp = true) (ha : c.reconnectAuto = true)
+    (hr : st.srvReply = .accepted) :
+    Obs.frames (burst c (envOf c st)) ∈ (reconnect c st).2 ∧ (reconnect c st).1.session = true ∧
+    (reconnect c st).1.parent = st.parent ∧ (reconnect c st).1.told = some (position c st) := by
+  simp [reconnect, doLogin, hup, ha, hr, envOf, position]
+
+theorem run_cons (c : Config) (st : State) (op : Op) (ops : List Op) :
+    run c st (op :: ops) =
+      ((run c (step c st op).1 ops).1, (step c st op).2 ++ (run c (step c st op).1 ops).2) := by
+  simp [run]
 
 end AioslskVerif.Session
